@@ -57,3 +57,34 @@ def local2global_rule(ctx):
         ok = all(it.read(res, [N * e + q, V.const(d)], fn).eq(_affine("G", e, d, xi)) for d in range(3))
         r.check(ok, "%s::grid_to_points" % rel.split("/")[-1], rel, fn.name, fn.lineno, "grid_to_points layout/affine map in " + rel.split("/")[-1],
                 "point number n*element + q of grid_to_points is not local2global(element, local point q)")
+
+
+def point_cloud(ctx):
+    """Grid.map_to_point_cloud(order, local_points): the cloud the Galerkin-tested potentials are evaluated on."""
+    import ast
+
+    from . import dispatch
+    from .src import unparse
+
+    r = ctx.rule("POINT-CLOUD", "Grid.map_to_point_cloud maps the caller's local points when they are given, otherwise the points of the triangle rule of the given order (the global regular order only when neither is given), through grid_to_points of this grid", 3)
+    fn = ctx.repo.mod(GRID).fn("Grid.map_to_point_cloud")
+    p = arg_names(fn)
+    if len(p) < 3:
+        raise AnalysisError("Grid.map_to_point_cloud: signature changed")
+    O, L = p[1], p[2]
+    body = [s for s in fn.body if not isinstance(s, (ast.Import, ast.ImportFrom)) and not (isinstance(s, ast.Expr) and isinstance(s.value, ast.Constant))]
+    ns = lambda t: (t or "").replace(" ", "").replace('"', "'")
+    for name, env in (("local points given", {L: "‹pts›", O: None}), ("order given", {L: None, O: 5}), ("neither given", {L: None, O: None})):
+        effs = dispatch.effects(body, env, "Grid.map_to_point_cloud")
+        ret = [e[1] for e in effs if e[0] == "return"]
+        sets = [(e[1], e[2]) for e in effs if e[0] in ("set", "store")]
+        okr = len(ret) == 1 and ns(ret[0]).startswith("grid_to_points(self.data(") and ns(ret[0]).endswith(",%s)" % L)
+        if name == "local points given":
+            ok = okr and not sets
+            why = "with local points given the method returns `%s` after assigning %s (expected grid_to_points(self.data(..), the given points), nothing reassigned)" % (ret, sets)
+        else:
+            pts = [v for t, v in sets if ns(t).strip("()").split(",")[0] == L]
+            ords = [v for t, v in sets if t == O]
+            ok = okr and [ns(v) for v in pts] == ["rule(%s)" % O] and (name == "order given" and not ords or name == "neither given" and len(ords) == 1 and ns(str(ords[0])).endswith("GLOBAL_PARAMETERS.quadrature.regular"))
+            why = "%s: local points are taken from %s, the order is reassigned to %s, the method returns `%s`" % (name, pts, ords, ret)
+        r.check(ok, name, GRID, "Grid.map_to_point_cloud", fn.lineno, "point cloud when " + name, why)
